@@ -127,6 +127,7 @@ class Rendered:
         self.tokens = []
         self.items = []
         self.nlines = 0
+        self.slotpos = {}
 
 
 class _Emitter:
@@ -136,6 +137,7 @@ class _Emitter:
         self.start = {}      # id(node) -> item index of first token
         self.opidx = {}      # id(node) -> item index of operator/keyword/name token
         self.istr_idx = {}
+        self.slotpos = {}    # id(node inside an interpolation slot) -> synthetic (-slot_no, item index)
         self.depth = 0
         self.inline = inline  # inside an interpolation slot: single line, canonical
 
@@ -406,6 +408,11 @@ class _Emitter:
                     sub = _Emitter(Layout(), inline=True)
                     sub.expr(p, 1)
                     slot_text = _inline_text(sub.items)
+                    slot_no = len(self.slotpos) + 1
+                    for nid, idx in sub.start.items():
+                        self.slotpos[nid] = (-slot_no, idx)
+                    for nid, sp in sub.slotpos.items():
+                        self.slotpos[nid] = (sp[0] - 100000 * slot_no, sp[1])
                 depth = 0
                 for ch in slot_text:
                     if ch == "{":
@@ -581,6 +588,7 @@ def layout_items(em, lay):
 
     r.text = "".join(out)
     r.istr_tok = em.istr_idx
+    r.slotpos = em.slotpos
     r.items = items
     r.nlines = line
     n_items = len(items)
